@@ -64,7 +64,7 @@ def recorded_view(raw, version, single=False):
     return out
 
 
-def apply_damage(root, single, view, damage, tree):
+def apply_damage(root, single, view, damage, tree, P=16384):
     """Apply the damage set (file indexes refer to tree["files"]; they are mapped to the recorded
     view by path); returns per-recorded-file disk state."""
     state = []
@@ -97,6 +97,23 @@ def apply_damage(root, single, view, damage, tree):
             for s2 in state:            # every entry below that directory is gone with it
                 if s2["present"] and not os.path.lexists(s2["path"]):
                     s2["present"], s2["len"], s2["flips"] = False, 0, []
+        elif d["kind"] == "dangling":          # the file replaced by a symbolic link that leads nowhere
+            os.remove(s["path"])
+            os.symlink(os.path.join(os.path.dirname(s["path"]), "no-such-target"), s["path"])
+            s["present"], s["len"], s["flips"] = False, 0, []
+        elif d["kind"] == "wrong":             # same name, same length, EVERY byte different (another file's content)
+            with open(s["path"], "rb") as fh:
+                b = fh.read()
+            table = bytes(((x - 1 + 97) % 255) + 1 if x else 7 for x in range(256))
+            with open(s["path"], "wb") as fh:
+                fh.write(b.translate(table))
+            # named by one changed byte per piece that overlaps the file: the first byte of every overlap, for the v1
+            # stream pieces and for file-local (v2) pieces alike
+            vi = index[key]
+            start = sum(ln for _, ln, _ in view[:vi])
+            n = s["len"]
+            offs = {0} | {o for o in range(P - start % P, n, P)} | set(range(0, n, P))
+            s["flips"] = sorted(o for o in offs if 0 <= o < n)
         elif d["kind"] in ("remove", "rmdir"):
             os.remove(s["path"])
             s["present"], s["len"], s["flips"] = False, 0, []
@@ -326,7 +343,7 @@ def run_recheck(case):
         view = recorded_view(raw, case["version"], single)
         rec["recs"] = [ln for _, ln, _ in view]
         rec["kinds"] = [k for _, _, k in view]
-        rec["disk"] = apply_damage(root, single, view, case.get("damage", []), tree)
+        rec["disk"] = apply_damage(root, single, view, case.get("damage", []), tree, case["P"])
         path = root if case.get("path_mode", "root") == "root" else os.path.dirname(root)
         if not os.path.exists(root):
             # the payload root itself vanished (single file removed): give the parent
